@@ -39,6 +39,9 @@ RULE = ('catalogue rows: seeded sample (quick) / all 2593 (thorough) x 9 wavelen
         'or out-of-order wavelength, a spread of the others (every interval in the thorough tier); every row with a repeated / '
         'out-of-order wavelength or a one-row table and each table layout (n, nk, n+k, k, formula+k, formula+nk) is always '
         'included, selected by a run-time scan of the data files; '
+        'array arguments: n() and k() of rows of every formula (one per number of terms) and every table layout called with '
+        'scalars, 0-d, 1-D, 2-D ((1,b), (a,1), second dimension = number of formula terms, others) and 3-D arrays; result '
+        'shape, elementwise agreement with the scalar call and with the independent oracle (no Coq involved); '
         'history independence: Material(...) constructed repeatedly in one process - every case-colliding catalogue name pair '
         'in both orders with repeats, the same name under different references / wavelength bounds / robust flags - each call '
         'judged against the stateless lookup model')
